@@ -101,10 +101,17 @@ type C10Config struct {
 	Pipeline    string `json:"pipeline"` // incremental | fullsync
 	Shape       string `json:"shape"`
 	JS          bool   `json:"js"`
+	// Rewrite: after the n entities, entity number Rewrite-1 is written again with another content (0 = not): the
+	// source's change log then holds two versions of it, the second one in the last (short) batch
+	Rewrite int `json:"rewrite,omitempty"`
 }
 
 func (c C10Config) String() string {
-	return fmt.Sprintf("n=%d batch=%d parallelism=%d pipeline=%s transform=%s js=%v", c.N, c.Batch, c.Parallelism, c.Pipeline, c.Shape, c.JS)
+	s := fmt.Sprintf("n=%d batch=%d parallelism=%d pipeline=%s transform=%s js=%v", c.N, c.Batch, c.Parallelism, c.Pipeline, c.Shape, c.JS)
+	if c.Rewrite > 0 {
+		s += fmt.Sprintf(" rewrittenAtTheEnd=e%d", c.Rewrite-1)
+	}
+	return s
 }
 
 type c10Out struct {
@@ -142,6 +149,17 @@ func c10Run(cfg C10Config) (viol []engine.Violation, outcome string, herr string
 		if err := h.ApplyWrite(server.VOp{K: "batch", DS: "S", Ents: ents}); err != nil {
 			return nil, "", err.Error()
 		}
+	}
+	if cfg.Rewrite > 0 && cfg.Rewrite <= cfg.N {
+		i := cfg.Rewrite - 1
+		if err := h.ApplyWrite(server.VOp{K: "batch", DS: "S", Ents: []server.VEnt{{ID: ids[i], C: model.PoolIndex(pool, []string{"v1", "v2", "s"}[(i+1)%3])}}}); err != nil {
+			return nil, "", err.Error()
+		}
+		ids = append(ids, ids[i]) // the change log: every entity once, then the rewritten one again
+	}
+	occurs := map[string]int{}
+	for _, id := range ids {
+		occurs[id]++
 	}
 	sp := JobSpec{Sources: []string{"S"}, Sink: "Z", JobType: cfg.Pipeline, BatchSize: cfg.Batch}
 	if cfg.JS {
@@ -184,8 +202,8 @@ func c10Run(cfg C10Config) (viol []engine.Violation, outcome string, herr string
 			cnt[id]++
 		}
 		for _, id := range ids {
-			if cnt[id] != 1 {
-				fail("transform-once", fmt.Sprintf("source entity %s was passed to the transform %d times (want exactly once); transform saw %v", id, cnt[id], rec.seen))
+			if cnt[id] != occurs[id] {
+				fail("transform-once", fmt.Sprintf("source entity %s was passed to the transform %d times (want once per change: %d); transform saw %v", id, cnt[id], occurs[id], rec.seen))
 				break
 			}
 		}
@@ -324,6 +342,19 @@ func init() {
 				for b := 1; b <= jsB; b++ {
 					for p := 1; p <= jsP; p++ {
 						cfgs = append(cfgs, C10Config{N: n, Batch: b, Parallelism: p, Pipeline: "incremental", Shape: shape, JS: true})
+					}
+				}
+			}
+		}
+		// two versions of one entity in the change log, the second in a last, shorter batch (state a run carries from
+		// one batch to the next shows when the sink ends on the older version)
+		for _, js := range []bool{false, true} {
+			for n := 2; n <= 7; n++ {
+				for b := 2; b <= 5; b++ {
+					for p := 2; p <= 4; p++ {
+						for rw := 1; rw <= n; rw++ {
+							cfgs = append(cfgs, C10Config{N: n, Batch: b, Parallelism: p, Pipeline: "incremental", Shape: "identity", JS: js, Rewrite: rw})
+						}
 					}
 				}
 			}
